@@ -259,8 +259,28 @@ def e2e_stream(run):
                {"holds_s": sorted({r["hold_s"] for r in rs}), "statuses": sorted({str(r["rc"]) for r in rs})})
 
 
+def watcher_obligation(run):
+    """Server.watchIOBEvents of the working tree against Model/OneShell.watch"""
+    okw, gen, wlog = vlib.run_translator(run, "watcher")
+    run.checker_cmds.append("translator/watcher (go/parser over /repo/internal/hsrv/hsrv.go) -> GenWatch.v ; coqc GenDepC12.v (table_is_watch watcher_actions = true)")
+    if not okw:
+        run.oblige("translator watcher ran on /repo's working tree", False, wlog[-2000:])
+        return
+    open(os.path.join(run.rundir, "GenWatch.v"), "w").write(gen)
+    open(os.path.join(run.rundir, "GenDepC12.v"), "w").write(
+        "From Coq Require Import List String.\nFrom CRS Require Import Lib.Bytes Model.Broker Model.OneShell Props.C12.\nFrom Gen Require Import GenWatch.\n"
+        "Theorem c12_tree_watcher : watcher_found = 1%nat /\\ watcher_switches = 1%nat /\\ watcher_early_returns = 0%nat /\\ table_is_watch watcher_actions = true.\n"
+        "Proof. vm_compute. repeat split; reflexivity. Qed.\nPrint Assumptions c12_tree_watcher.\n")
+    rc1, o1, e1 = vlib.coqc("GenWatch.v", run.rundir, extra_q=[(run.rundir, "Gen")])
+    rc2, o2, e2 = vlib.coqc("GenDepC12.v", run.rundir, extra_q=[(run.rundir, "Gen")]) if rc1 == 0 else (1, "", "")
+    run.oblige("per-run obligation c12_tree_watcher: in the working tree the event watcher closes the listener (and announces it) exactly for a CONNECTED event "
+               "under -one-shell, re-prints the help exactly for a DISCONNECTED event without it, and does nothing else - the table Model/OneShell.watch",
+               rc1 == 0 and rc2 == 0, (gen + o1 + e1 + o2 + e2)[-2500:])
+
+
 def check(run):
     vlib.static_obligations(run)
+    watcher_obligation(run)
     ok, binp, log = vlib.build_overlay_test(run.rundir, "internal/hsrv", go="go")
     run.checker_cmds.append("go test -c -tags verif -overlay (harness/overlay/hsrv): real Server with real TCP connect probes")
     if not ok:
